@@ -74,6 +74,7 @@ type Exec struct {
 	frameProps   []string
 	frameOn      bool
 	retHook      func(val Val)
+	externSites  int
 	tailNext     bool
 	retGuards    []*Term
 }
